@@ -1,5 +1,6 @@
 import Pm.Dev2Fd
 import Pm.ToBufProps
+import Pm.CurInv
 /-! # C07 — no device behaviour can crash the daemon: the connection layer's asserts and `dbg_memstr`
 
 Scope: the four `assert`s on descriptor / connection state (`tcp_connect` and `pipe_connect`:
@@ -25,8 +26,9 @@ open Pm.Dev2.Fd
 /-! ## the asserts of the connection layer -/
 
 /-- From a state in which `dev->fd == NO_FD` exactly when `connect_state == DEV_NOT_CONNECTED` (`FdInv`, kept by every
-    pass: `C20_fd_inv_preserved`), a `dev_post_poll` pass reaches none of the four asserts.  This is the theorem that
-    defect F6 (a stale `dev->fd` after a failed `tcp_finish_connect`, tripping `assert(dev->fd == NO_FD)` on the next
+    pass: `C20_fd_inv_preserved`), a `dev_post_poll` pass reaches none of the four asserts — also when the host has several
+    addresses and `tcp_connect` / `tcp_finish_connect` walk over them (every failed address leaves `fd == NO_FD` behind before
+    the next is tried: `C20_fd_ledger_walk`).  This is the theorem that defect F6 (a stale `dev->fd` after a failed `tcp_finish_connect`, tripping `assert(dev->fd == NO_FD)` on the next
     reconnect or `assert(connect_state != NOT_CONNECTED)` on the next poll event) is gone. -/
 theorem C07_connect_asserts_unreachable (d : Dev) (env : Env) (o : Oracle) (h : FdInv d) :
     (postPoll d env o).1.sys.any isCAssert = false :=
@@ -78,9 +80,9 @@ theorem C07_disconnect_asserts_hold (d : Dev) (hc : ChildInv d) (hr : ConnRange 
 
 example : ChildInv exPipe ∧ ConnRange exPipe ∧ exPipe.conn ≠ 0 := by simp [ChildInv, ConnRange, exPipe, exDev]
 
-/-- `_handle_ready_device: assert(dev->finish_connect != NULL)` (the method is NULL for coprocess and serial devices)
-    is not an abort site of the model either (`handleReady` calls `finishConnectOne` whatever the transport); it is
-    reached only in state CONNECTING, which a coprocess device never is in -/
+/-- `_handle_ready_device: assert(dev->finish_connect != NULL)` (the method is NULL for coprocess and serial devices; a fifth
+    abort site of the model, `Sys.abort "assert finish_connect != NULL"`, beside the four of `isCAssert`) is reached only in state
+    CONNECTING, which a coprocess device never is in (`ChildInv`, kept by every pass: `C20_child_inv_preserved`) -/
 theorem C07_finish_connect_assert_holds (d : Dev) (hc : ChildInv d) (h1 : d.conn = 1) : d.isPipe = false := by
   cases hp : d.isPipe
   · rfl
@@ -88,6 +90,41 @@ theorem C07_finish_connect_assert_holds (d : Dev) (hc : ChildInv d) (h1 : d.conn
 
 example : ChildInv { exDev with conn := 1, fd := some 7 } ∧ ({ exDev with conn := 1, fd := some 7 } : Dev).conn = 1 := by
   simp [ChildInv, exDev]
+
+/-- … and over a whole pass: from a state that satisfies `ChildInv` (kept by every pass, `C20_child_inv_preserved`) a
+    `dev_post_poll` pass does not reach `assert(dev->finish_connect != NULL)`; likewise `_reconnect` and `_handle_ready_device`
+    taken alone.  Without `ChildInv`: `C20_pipe_connecting_asserts`. -/
+theorem C07_finish_connect_assert_unreachable (d : Dev) (env : Env) (o : Oracle) (h : ChildInv d) :
+    (postPoll d env o).1.sys.any isPAssert = false ∧
+    (∀ (c : CS) (tmo : Option Time), ChildInv c.dev → c.sys.any isPAssert = false →
+      (reconnectDev c tmo).1.sys.any isPAssert = false ∧
+      (c.dev.fd.isSome = true → (handleReady c).1.sys.any isPAssert = false)) :=
+  ⟨(postPoll_moves d env o).keeps_all.noPAssert h rfl,
+   fun c tmo hc hs => ⟨(reconnectDev_moves c tmo).keeps_all.noPAssert hc hs, fun hfd => (handleReady_moves c hfd).keeps_all.noPAssert hc hs⟩⟩
+
+example : ChildInv exPipe ∧ (postPoll exPipe exEnv ⟨[]⟩).1.sys.length = 6 := by
+  refine ⟨by simp [ChildInv, exPipe, exDev], by decide⟩
+
+/-- **`tcp_finish_connect` never dereferences a NULL `tcp->cur`** (`tcp->cur = tcp->cur->ai_next` after a failed `SO_ERROR`; the
+    mirror's abort `tcp->cur == NULL in tcp_finish_connect`).  `CurInv d`: while the device is CONNECTING `tcp->cur` points into
+    the address list.  It holds in every state the daemon can bring a device to from `dev_create` (`Login2.Reach`), it is kept
+    by a whole `dev_post_poll` pass whatever the kernel and the device answer — `tcp_connect` leaves the device CONNECTING only
+    on an address of the list, `tcp_finish_connect` moves to a later one or gives up — and under it the failure path of
+    `tcp_finish_connect` finds an address current.  Also: the iteration bound (`naddr`) the mirror gives the address walk is never
+    used up before the list is (more fuel changes nothing). -/
+theorem C07_finish_connect_cur_not_null :
+    (∀ d0 d : Dev, Pm.Dev2.Login2.Reach d0 d → d0.conn = 0 → Pm.Dev2.Walk.CurInv d) ∧
+    (∀ (d : Dev) (env : Env) (o : Oracle), Pm.Dev2.Walk.CurInv d → Pm.Dev2.Walk.CurInv (postPoll d env o).1.dev) ∧
+    (∀ c : CS, Pm.Dev2.Walk.CurInv c.dev → c.dev.conn = 1 → (closeFd c).dev.cur ≠ none) ∧
+    (∀ (n k : Nat) (c : CS), (∀ i, c.dev.cur = some i → i < c.dev.naddr ∧ c.dev.naddr - i ≤ n) →
+      connectWalk (n + k) c = connectWalk n c) :=
+  ⟨fun _ _ h h0 => Pm.Dev2.Walk.Reach.curInv h h0, Pm.Dev2.Walk.postPoll_curInv, Pm.Dev2.Walk.finishConnectFail_cur_some,
+   Pm.Dev2.Walk.connectWalk_fuel⟩
+
+/-- non-vacuity: the three-address device CONNECTING on its third address after two failures -/
+example : Pm.Dev2.Walk.CurInv (tcpConnect ⟨Pm.Dev2.Walk.ex3, Pm.Dev2.Walk.env221, [], false⟩).1.dev ∧
+    (tcpConnect ⟨Pm.Dev2.Walk.ex3, Pm.Dev2.Walk.env221, [], false⟩).1.dev.conn = 1 :=
+  ⟨fun _ => ⟨2, by decide, by decide⟩, by decide⟩
 
 /-! ## `dbg_memstr` -/
 
